@@ -1,3 +1,49 @@
-From PV Require Import Model.RankCrowd.
-Theorem placeholder : True. Proof. exact I. Qed.
-Print Assumptions placeholder.
+(* C16  ConstrRankAndCrowding orders infeasible solutions in violation space.  Statements only. *)
+From Coq Require Import List Bool Arith.
+From PV Require Import Base.Num Base.Res Base.ListX Model.Dominance Model.RankCrowd Proofs.DominanceP Proofs.RankCrowdP.
+Import ListNotations.
+
+(* Structure of every successful run (crnc_wrapped):
+   - feasible individuals first: the feasible survivors fs are what RankAndCrowding (with pymoo's wrapper)
+     selects on the feasible sub-population (rnc_wrapped true sub ...), |fs| = min(#feasible, quota);
+   - infeasible ones are added only when quota - |fs| > 0, i.e. when every feasible individual survives;
+   - they are taken front by front of a validated non-dominated sorting of the violation vectors m_c
+     (all fronts but the last whole, a duplicate-free part of the last one), and the last front is cut by
+     an ascending sort of the total violations (cut_by_cv);
+   - on unconstrained problems the result is exactly RankAndCrowding's (rnc_wrapped false). *)
+Theorem C16_structure :
+  forall (N : num) constr (pop : list (mind N)) n s surv attrs cvr s',
+    crnc_survival constr pop n s = Ok ((surv, attrs, cvr), s') -> pop <> [] -> 1 <= n ->
+    let ns := Nat.min n (length pop) in
+    crnc_wrapped constr pop ns surv /\ length surv = ns /\ NoDup surv /\ Forall (fun i => i < length pop) surv.
+Proof. exact @crnc_survival_spec. Qed.
+Print Assumptions C16_structure.
+
+(* in violation space the kept infeasible individuals are never dominated by a discarded infeasible one;
+   C = violation vectors of the infeasible sub-population, kept = concat (removelast fronts) ++ sel *)
+Theorem C16_violation_fronts :
+  forall (N : num) (C : list (list N)) n fronts sel s d,
+    is_ndsb C n fronts = true -> incl sel (last fronts []) -> NoDup sel ->
+    In s (concat (removelast fronts) ++ sel) -> d < length C ->
+    pdomb (nth d C []) (nth s C []) = true -> In d (concat (removelast fronts) ++ sel).
+Proof.
+  intros N C n fronts sel s d H1 H2 H3. apply (no_discarded_dominates C n fronts).
+  split; [assumption|]. exists sel. auto.
+Qed.
+Print Assumptions C16_violation_fronts.
+
+(* on problems without constraints it is RankAndCrowding *)
+Theorem C16_unconstrained_is_rnc :
+  forall (N : num) (pop : list (mind N)) n s surv attrs cvr s',
+    crnc_survival false pop n s = Ok ((surv, attrs, cvr), s') -> pop <> [] -> 1 <= n ->
+    rnc_wrapped false pop (Nat.min n (length pop)) surv.
+Proof. intros N pop n s surv attrs cvr s' H Hne Hn. exact (proj1 (crnc_survival_spec false pop n s surv attrs cvr s' H Hne Hn)). Qed.
+Print Assumptions C16_unconstrained_is_rnc.
+
+(* total violations: kept infeasible <= dropped infeasible in the order supplied by the split *)
+Theorem C16_sorted_cut :
+  forall (N : num) (ok : N -> Prop), ord_laws N ok ->
+  forall sv m, Forall ok sv -> sorted_by (N := N) false sv = true ->
+  forall x y, In x (firstn m sv) -> In y (skipn m sv) -> leb N x y = true.
+Proof. intros N ok L. exact (sorted_asc_split L). Qed.
+Print Assumptions C16_sorted_cut.
